@@ -57,10 +57,8 @@ func NewMsgCancelUnbondingDelegation
             && result.0.Amount.Denom == denom && result.0.Amount.Amount == amt
     // the message names the creation height the caller passed (ABI type uint256)
     ensures height: result.2 == nil ==> result.0.CreationHeight == h
-    ensures err_iff: (result.2 == nil) == (ok && val_bech_ok(dyn(args[1], string)) && coin_valid(denom, amt) && amt > 0 && h > 0)
-    // FINDING G1: both fail for h >= 2^63 (big.Int.Int64 wraps silently); they hold when the height fits an int64:
-    ensures height_fits64: result.2 == nil && 0 - 9223372036854775808 <= h && h <= 9223372036854775807 ==> result.0.CreationHeight == h
-    ensures err_iff_fits64: ok && 0 - 9223372036854775808 <= h && h <= 9223372036854775807 ==> (result.2 == nil) == (val_bech_ok(dyn(args[1], string)) && coin_valid(denom, amt) && amt > 0 && h > 0)
+    // no native MsgCancelUnbondingDelegation carries a height outside int64: such a call must be refused (finding G1, fixed)
+    ensures err_iff: (result.2 == nil) == (ok && val_bech_ok(dyn(args[1], string)) && coin_valid(denom, amt) && amt > 0 && h > 0 && h <= 9223372036854775807)
     ensures err_decode: !ok ==> result.2 != nil
     ensures who: result.2 == nil ==> result.1 == dyn(args[0], Address) && result.1 != zero_EvmAddr
     ensures refused: result.2 != nil ==> result.0 == nil
@@ -279,9 +277,8 @@ func (Precompile).Redelegate
 
 func (Precompile).CancelUnbondingDelegation
     requires wf: contract != nil && method != nil && isdyn(stateDB, *SDB) && dyn(stateDB, *SDB) != nil && p.stakingKeeper.Keeper != nil && ctx_height(ctx) >= 0
-    // args come from abi.Arguments.Unpack (no nil *big.Int). The creation height is restricted to int64 here: for larger values the
-    // decoder's own contract fails (finding G1) and must not be relied on
-    requires abi_nonnil: len(args) == 4 && isdyn(args[3], *BigInt) ==> dyn(args[3], *BigInt) != nil && 0 - 9223372036854775808 <= *dyn(args[3], *BigInt) && *dyn(args[3], *BigInt) <= 9223372036854775807
+    // args come from abi.Arguments.Unpack (no nil *big.Int)
+    requires abi_nonnil: len(args) == 4 && isdyn(args[3], *BigInt) ==> dyn(args[3], *BigInt) != nil
     let caller = old(contract.CallerAddress)
     let key = gkey(addr_bytes(caller), addr_bytes(origin), glob_staking_CancelUnbondingDelegationMsg)
     let okargs = len(args) == 4 && isdyn(args[0], Address) && dyn(args[0], Address) != zero_EvmAddr && isdyn(args[1], string) && isdyn(args[2], *BigInt) && isdyn(args[3], *BigInt)
@@ -290,7 +287,7 @@ func (Precompile).CancelUnbondingDelegation
     let amt = bigval(dyn(args[2], *BigInt))
     let h = old(*dyn(args[3], *BigInt))
     let denom = bond_denom(oldheap(*p.stakingKeeper.Keeper), ctx)
-    let decoded = okargs && val_bech_ok(val) && coin_valid(denom, amt) && amt > 0 && h > 0
+    let decoded = okargs && val_bech_ok(val) && coin_valid(denom, amt) && amt > 0 && h > 0 && h <= 9223372036854775807
     modifies cstate, g_kind, g_exp, g_limited, g_limit
     // ---- C04 at the point of no return (the message server call)
     call MsgServer.CancelUnbondingDelegation requires who: msg.DelegatorAddress == bech_of(origin) || msg.DelegatorAddress == bech_of(caller)
